@@ -3,7 +3,7 @@
 From Coq Require Import List ZArith NArith Bool String Lia.
 From Flocq Require Import IEEE754.BinarySingleNaN.
 From Verif Require Import common.Sexp common.Int64 c03.JV c03.FloatText c03.Core c03.Ops c03.Natives c03.Spec c03.Wf c03.Denote
-  c03.CompareDoc c03.OpsDoc c03.NativesDoc c03.NativesDoc2 c03.NoPanic1.
+  c03.CompareDoc c03.OpsDoc c03.NativesDoc c03.NativesDoc2 c03.NativesDoc3 c03.ContainsDoc c03.IndicesDoc c03.StringsDoc c03.PathDoc c03.FlattenDoc c03.SimpleDoc c03.NoPanic1.
 Import ListNotations.
 Open Scope Z_scope.
 
@@ -107,6 +107,72 @@ Section Rep.
     repeat split; eapply rep1_of_doc; intros;
       first [ apply f_utf8bytelength_doc | apply f_keys_doc | apply f_reverse_doc | apply f_type_doc | apply f_explode_doc
             | apply f_min_doc | apply f_max_doc | apply f_add_doc ]; auto.
+  Qed.
+
+  (* binary natives proved to meet their documented function *)
+  Lemma f_contains_doc v x : wf v = true -> wf x = true ->
+    agrees (f_contains pf v x) (match s_contains (denote v) (denote x) with Some b => SVal (MBool b) | None => SErr end).
+  Proof.
+    intros WV WX. pose proof (contains_doc pf pf_bigint v x WV WX) as C. unfold f_contains.
+    destruct (contains pf v x), (s_contains (denote v) (denote x)); simpl in *; try contradiction; subst; auto.
+  Qed.
+  Theorem natives_rep2 :
+    rep2 (f_contains pf) /\ rep2 (f_inside pf) /\ rep2 (f_indices pf) /\ rep2 (f_index pf) /\ rep2 (f_rindex pf)
+    /\ rep2 f_startswith /\ rep2 f_endswith /\ rep2 f_ltrimstr /\ rep2 f_rtrimstr /\ rep2 f_trimstr
+    /\ (forall b, rep2 (f_minmax_by pf b)) /\ rep1 (f_tonumber pf) /\ rep1 f_transpose.
+  Proof.
+    repeat split.
+    - apply (rep2_of_doc _ (fun a b => match s_contains a b with Some b => SVal (MBool b) | None => SErr end)). intros; apply f_contains_doc; auto.
+    - unfold rep2. intros l r l' r' W1 W2 W3 W4 E1 E2. unfold f_inside.
+      eapply agrees_oeq; [apply f_contains_doc; auto|]. rewrite E1, E2. apply f_contains_doc; auto.
+    - eapply rep2_of_doc. intros; apply f_indices_doc; auto.
+    - eapply rep2_of_doc. intros; apply f_index_doc; auto.
+    - eapply rep2_of_doc. intros; apply f_rindex_doc; auto.
+    - eapply rep2_of_doc. intros; apply f_startswith_doc; auto.
+    - eapply rep2_of_doc. intros; apply f_endswith_doc; auto.
+    - eapply rep2_of_doc. intros; apply f_ltrimstr_doc; auto.
+    - eapply rep2_of_doc. intros; apply f_rtrimstr_doc; auto.
+    - eapply rep2_of_doc. intros; apply f_trimstr_doc; auto.
+    - intros b. eapply rep2_of_doc. intros; apply f_minmax_by_doc; auto.
+    - apply (rep1_of_doc _ (fun a => match s_tonumber pf a with Some r => r | None => SErr end)). intros; apply f_tonumber_doc; auto.
+    - eapply rep1_of_doc. intros; apply f_transpose_doc; auto.
+  Qed.
+
+  Theorem natives_rep3 :
+    rep1 f_toboolean /\ rep1 op_plus /\ rep1 (f_isnan pf) /\ rep1 (f_isinfinite pf) /\ rep1 (f_isfinite pf) /\ rep1 (f_isnormal pf).
+  Proof.
+    repeat split.
+    - eapply rep1_of_doc. intros; apply f_toboolean_doc; auto.
+    - eapply rep1_of_doc. intros; apply op_plus_doc; auto.
+    - eapply rep1_of_doc. intros; apply f_isnan_doc; auto.
+    - eapply rep1_of_doc. intros; apply f_isinfinite_doc; auto.
+    - eapply rep1_of_doc. intros; apply f_isfinite_doc; auto.
+    - eapply rep1_of_doc. intros; apply f_isnormal_doc; auto.
+  Qed.
+
+  (* natives whose Spec.v entry covers a documented domain only: independent of the representation wherever
+     the entry says anything *)
+  Definition orep (o o' : outcome jv) (s : option sres) : Prop := match s with Some _ => oeq o o' | None => True end.
+  Lemma orep_of_doc o o' s : ragrees pf o s -> ragrees pf o' s -> orep o o' s.
+  Proof. destruct s; simpl; auto. apply agrees_oeq. Qed.
+  Theorem natives_rep_partial v v' x x' : wf v = true -> wf v' = true -> wf x = true -> wf x' = true ->
+    denote v = denote v' -> denote x = denote x' ->
+    orep (f_ascii_downcase v) (f_ascii_downcase v') (s_ascii false (denote v))
+    /\ orep (f_ascii_upcase v) (f_ascii_upcase v') (s_ascii true (denote v))
+    /\ orep (f_implode pf v) (f_implode pf v') (s_implode (denote v))
+    /\ orep (f_split v x) (f_split v' x') (match denote v, denote x with
+                                            | MStr s, MStr t => option_map (fun ps => SVal (MArr (map MStr ps))) (s_split s t)
+                                            | _, _ => Some SErr end)
+    /\ orep (f_flatten pf v [x]) (f_flatten pf v' [x']) (s_flatten (denote v) (Some (denote x))).
+  Proof.
+    intros W W' WX WX' E EX. repeat split; apply orep_of_doc;
+      try (rewrite E; try rewrite EX);
+      auto using f_ascii_downcase_doc, f_ascii_upcase_doc, f_implode_doc, f_split_doc, f_flatten1_doc.
+    - rewrite <- E. apply f_ascii_downcase_doc; auto.
+    - rewrite <- E. apply f_ascii_upcase_doc; auto.
+    - rewrite <- E. apply f_implode_doc; auto.
+    - rewrite <- E, <- EX. apply f_split_doc; auto.
+    - rewrite <- E, <- EX. apply f_flatten1_doc; auto.
   Qed.
 
   (* ---- text-producing builtins: a json.Number prints its literal digits (C10), so representation
